@@ -238,6 +238,12 @@ def run(ctx):
         for entry in ("cythonize", "cli"):
             core, rest = axes[entry]
             hists += star_histories(entry, core + rest, 8)
+    # fixed histories: a state whose compilation FAILS, compiled twice in a row and again after a detour (a failed
+    # compilation must never be answered from the cache as a success)
+    bad = ch.apply_axis(ch.BASE_STATE, ("directives", "c_compile_guard", "MY_GUARD"))
+    for entry in ("cythonize", "cli"):
+        hists.append({"entry": entry, "states": [ch.BASE_STATE, bad, bad, ch.BASE_STATE, bad],
+                      "labels": ["start", "directive:c_compile_guard", "repeat-failing", "revert", "revert-to-failing"]})
     allh = inl + hists
     # phase 1: fresh, cache-disabled reference compilation of every distinct state
     jobs = {}
